@@ -1192,6 +1192,8 @@ def run(run: Run) -> None:
     run.notes["sites"] = {s: SITES[s].where for s in names}
     run.notes["sites"]["t3trace:emit_trace (direct call, gate unreachable through run_turn)"] = \
         "stages/t3/trace.emit_trace: try: logs.append({...}) except Exception: pass"
+    for cls in PARTIAL_CLASSES:
+        run.notes["sites"][cls + " (partially corrupt snapshot files, singles only)"] = SITES[PARTIAL_QUICK[0]].where
     run.notes["n_sites"] = len(names)
     run.notes["n_extra_garbage_sites"] = len(extra_names)
     run.notes["n_partial_snapshot_sites"] = len(PARTIAL_QUICK) + len([s for s in extra_names if s.startswith("boot:partial:")])
